@@ -86,7 +86,7 @@ TReset == IsEvent("Reset") /\ Reset /\ UNCHANGED reported
 
 Matches(w, s, e) ==
   CASE e.k = "ok"        -> w.k = "ok" /\ w.got = e.mark
-    [] e.k = "timeout"   -> w.k = "timedOut"
+    [] e.k = "timeout"   -> w.k = "timedOut" \/ (w.k = "connErr" /\ e.atdl)   \* both happened in the same instant
     [] e.k = "cancelled" -> w.k = "cancelled"
     [] e.k = "connErr"   -> w.k = "connErr"
     [] e.k = "corrErr"   -> w.k = "corrErr"
